@@ -610,7 +610,7 @@ fn closing_case(c: &mut Ctx, m: &'static Merchant, name: &str) {
 }
 
 pub fn run(c: &mut Ctx) {
-    c.note("rule", json!("establish tuple (key, channel id, balances, context) and pay tuple (key, range parameters, revocation-commitment parameters, nonce, amount, context): each component replaced by a fresh value and by near values (balance+-1, amount+-1, negated, zero, context with one byte changed / appended / truncated / empty, nonce+1), merchant configurations recombined with from_parts so that exactly one part differs; recorded replies and proofs presented in other sessions (other channel, other merchant, other context) at every reply point; closing messages from every stage with each field replaced by the value from an earlier / later state or another channel. Distinct = distinct (proof kind, substituted component, substitution kind)."));
+    c.note("rule", json!("establish tuple (key, channel id, balances, context) and pay tuple (key, range parameters, revocation-commitment parameters, nonce, amount, context): each component replaced by a fresh value and by near values (balance+-1, amount+-1, negated, zero, context with one byte changed / appended / truncated / empty, nonce+1), merchant configurations recombined with from_parts so that exactly one part differs; recorded replies and proofs presented in other sessions (other channel, other merchant, other context) at every reply point; closing messages from every stage with each field replaced by the value from an earlier / later state or another channel. Distinct = distinct (proof kind, substituted component, substitution kind). Added later: all 256 channel-id bits, near range parameters, per-key-element substitution, a degenerate in-memory closing signature, digest-of-context contexts, wire amounts including i64::MIN. The same substitutions with the proof handed over as an in-memory object."));
     let m = match fixtures::merchant(c.seed, "m0") {
         Ok(m) => m,
         Err(e) => return c.inconclusive(&e),
